@@ -318,8 +318,12 @@ func H_StringLit() {
 		return
 	}
 	// an unescaped quote ends the literal early; what follows is a different program
-	for i, c := range content {
-		if c == '"' && (i == 0 || content[i-1] != '\\') {
+	for i := 0; i < len(content); i++ {
+		if content[i] == '\\' {
+			i++ // the escaped character (an escaped backslash does not escape what follows it)
+			continue
+		}
+		if content[i] == '"' {
 			vf.Reach("early-quote")
 			return
 		}
